@@ -152,6 +152,44 @@ def _then_request(tx, reader):
     return w
 
 
+# ---- a descriptor transaction whose commit is interrupted by an application observer that raises
+
+class ObserverError(Exception):
+    pass
+
+
+def _raising_observer(_value):
+    raise ObserverError('application observer of deleted_descriptors_by_handle raises')
+
+
+def w_descriptor_delete_raising(b, n, pause=None):
+    """cycling: create descriptor EC.raise<k> with a context state -> delete it while an application observer bound to
+    mdib.deleted_descriptors_by_handle raises (it is called synchronously from inside the commit)"""
+    from sdc11073 import observableproperties as properties
+    from sdc11073.xml_types import pm_qnames as pm
+    with _TOGGLE_GUARD:
+        phase = getattr(b, 'raise_phase', 0)
+        b.raise_phase = (phase + 1) % 2
+        if phase == 0:
+            b.raise_handle = f'EC.raise{n}'
+        handle = b.raise_handle
+    if phase == 0:
+        cls = b.mdib.data_model.get_descriptor_container_class(pm.EnsembleContextDescriptor)
+        with b.mdib.descriptor_transaction() as tr:
+            tr.add_descriptor(cls(handle=handle, parent_handle='SC.mds0'))
+            _pause(pause)
+        return
+    properties.bind(b.mdib, deleted_descriptors_by_handle=_raising_observer)
+    try:
+        with b.mdib.descriptor_transaction() as tr:
+            tr.remove_descriptor(handle)
+            _pause(pause)
+    except ObserverError:
+        pass     # the application sees its own exception; what matters is what the MDIB looks like afterwards
+    finally:
+        properties.unbind(b.mdib, deleted_descriptors_by_handle=_raising_observer)
+
+
 # ---- writers that use the ENTITY work flow (entities.by_handle -> edit entity.states -> write_entity)
 
 def w_entity_admit(b, n, pause=None):
@@ -254,13 +292,14 @@ WRITERS = {'toggleTx': w_toggle, 'metricTx': w_metric, 'contextNewTx': w_context
            'descriptorTx': w_descriptor, 'descriptorAddTx': w_descriptor_add,
            'entityAdmitTx': w_entity_admit, 'entityEditTx': w_entity_edit, 'setLocationTx': w_set_location,
            'setContextStateTx': w_set_context_state, 'contextDeleteTx': w_context_delete}
-WRITERS.update({'metricNestedTx': w_metric_nested, 'contextNestedTx': w_context_nested})
+WRITERS.update({'metricNestedTx': w_metric_nested, 'contextNestedTx': w_context_nested,
+                'descriptorDeleteRaisingTx': w_descriptor_delete_raising})
 COMPOUND = {'commitThenGetMdState': _then_request(w_metric, 'getMdState_handles'),
             'commitThenGetMdStateAll': _then_request(w_metric_nested, 'getMdState_all'),
             'commitThenGetContextStates': _then_request(w_context_update, 'getContextStates_all'),
             'commitThenGetMdDescription': _then_request(w_descriptor, 'getMdDescription_handles'),
             'commitThenGetMdib': _then_request(w_descriptor, 'getMdib')}
-PHASES = {'toggleTx': 3, 'contextDeleteTx': 2}   # cycling writers: every phase is traced by the translator
+PHASES = {'toggleTx': 3, 'contextDeleteTx': 2, 'descriptorDeleteRaisingTx': 2}   # cycling writers: every phase is traced by the translator
 NOT_GENERATED = ('setLocationTx',)
 ENTITY_WRITERS = ('entityAdmitTx', 'entityEditTx', 'setLocationTx', 'setContextStateTx')
 # writers that can be held OPEN (paused inside the transaction, holding tr_lock + mdib_lock) while the request arrives
@@ -320,6 +359,20 @@ def new_state():
     return {'bench': bench, 'tracer': tracer, 'history': history, 'n': 0, 'reused': reused}
 
 
+def end_of_run_snapshot(state):
+    """quiescent MDIB after a run: its content must be THE content of its MdibVersion (also when a transaction ended
+    with an exception and no post-commit hook ran)"""
+    with state['tracer'].suspended():
+        snap = take_snapshot(state['bench'])
+    old = state['history'].get(snap['version'])
+    if old is None:
+        state['history'][snap['version']] = snap
+    elif (old['states'], old['descr']) != (snap['states'], snap['descr']):
+        diff = sorted(map(str, set(old['states'].items()) ^ set(snap['states'].items())))[:2] or \
+            sorted(map(str, set(old['descr']) ^ set(snap['descr'])))[:2] or ['descriptor content']
+        state['reused'].append((snap['version'], [d[:120] for d in diff]))
+
+
 def trace_single(bench, tracer, fn):
     """single-threaded run of `fn` -> normalised action list.
 
@@ -355,8 +408,19 @@ def tok_act(a):
 def translate(ctx):
     bench, tracer = new_bench()
     progs = {}
+    timed = []
     for name, fn in READERS.items():
         progs[name] = trace_single(bench, tracer, lambda fn=fn: fn(bench))
+        if any(k == 'acq-timed' for _t, k, _w, _h in tracer.events):
+            # the handler enters its critical section with acquire(timeout=…) / non-blocking: the path on which the acquire
+            # gives up is a program of the handler as well (virtual expiry: no other thread needed)
+            tracer.expire_timeouts = 'always'
+            try:
+                progs[name + '_timeout'] = trace_single(bench, tracer, lambda fn=fn: fn(bench))
+            finally:
+                tracer.expire_timeouts = False
+            timed.append(name + '_timeout')
+    ctx.notes['handlers_with_timed_acquire'] = timed
     extra = []
     for i, (name, fn) in enumerate(WRITERS.items()):
         progs[name] = trace_single(bench, tracer, lambda fn=fn, i=i: fn(bench, 1000 + i))
@@ -375,7 +439,9 @@ def translate(ctx):
         src.append(f'def prog_{name} : List Act := [' + ', '.join(lean_act(a) for a in acts) + ']')
     src.append('')
     src.append('/-- the request handlers -/')
-    src.append('def readerProgs : List (List Act) := [' + ', '.join('prog_' + n for n in READERS) + ']')
+    src.append('def readerProgs : List (List Act) := [' + ', '.join('prog_' + n for n in list(READERS) + timed) + ']')
+    src.append('/-- handlers that enter a critical section with an acquire that can give up (timeout / non-blocking) -/')
+    src.append('def timedAcquireProgs : List String := [' + ', '.join(f'"{n}"' for n in timed) + ']')
     src.append('/-- the transactions -/')
     src.append('def writerProgs : List (List Act) := [' + ', '.join('prog_' + n for n in list(WRITERS) + extra if n not in NOT_GENERATED) + ']')
     src.append('end Sdc.Generated')
@@ -526,9 +592,10 @@ class Forced:
 
     TIMEOUT = 20.0
 
-    def __init__(self, bench, tracer, reader, writers, points, opened=None, reader_kind=''):
+    def __init__(self, bench, tracer, reader, writers, points, opened=None, reader_kind='', on_release=None):
         self.bench, self.tracer, self.reader, self.writers, self.points = bench, tracer, reader, writers, points
         self.reader_kind = reader_kind
+        self.on_release = on_release
         self.opened = opened or [False] * len(writers)
         self.reader_tid = None
         self.n_reader_events = 0
@@ -558,6 +625,10 @@ class Forced:
                 # the reader does not hold mdib_lock: every started writer can finish - it has priority
                 self._wait_all_done()
         else:
+            if kind == 'rel' and what == 'mdib_lock' and self.on_release is not None:
+                # a writer left its critical section (commit, or an exception out of the transaction): the reader is
+                # waiting for it, the MDIB is quiescent - its content is THE content of its MdibVersion
+                self.on_release()
             if kind == 'before-acq':
                 lock = self.tracer.locks[what]
                 if lock._owner is not None:  # noqa: SLF001   held by another thread: report "blocked", then block
@@ -727,6 +798,7 @@ def run_case(ctx, state, rname, wnames, points, opened=None):
     v0 = bench.mdib.mdib_version
     phase0 = getattr(bench, 'toggle_phase', 0)
     dphase0 = getattr(bench, 'delete_phase', 0)
+    rphase0 = getattr(bench, 'raise_phase', 0)
     for cl in (bench.get_client, bench.context_client):
         cl.soap_client.last_response = None
     # references to the objects published at v0 (what a reader that already left the section still holds)
@@ -734,10 +806,17 @@ def run_case(ctx, state, rname, wnames, points, opened=None):
             for st in list(bench.mdib.states.objects) + list(bench.mdib.context_states.objects)]
     writers = [lambda pause=None, w=w, j=j: (WRITERS.get(w) or COMPOUND[w])(bench, n0 + j, pause) for j, w in enumerate(wnames)]
     opened = list(opened or [False] * len(wnames))
-    f = Forced(bench, tracer, lambda: READERS[rname](bench), writers, points, opened, rname).run()
+    # an OPEN transaction stays open longer than any timeout a handler may pass to acquire (virtual time)
+    tracer.expire_timeouts = any(opened)
+    try:
+        f = Forced(bench, tracer, lambda: READERS[rname](bench), writers, points, opened, rname,
+                   on_release=lambda: end_of_run_snapshot(state)).run()
+    finally:
+        tracer.expire_timeouts = False
+    end_of_run_snapshot(state)
     evs_all = list(tracer.events)
     r_events = reader_events(tracer, f.reader_tid)
-    res = {'reader': rname, 'writers': wnames, 'points': points, 'v0': v0, 'toggle_phase': phase0, 'delete_phase': dphase0, 'errors': f.errors, 'n_events': len(r_events),
+    res = {'reader': rname, 'writers': wnames, 'points': points, 'v0': v0, 'toggle_phase': phase0, 'delete_phase': dphase0, 'raise_phase': rphase0, 'errors': f.errors, 'n_events': len(r_events),
            'r_events': r_events, 'events': evs_all, 'reader_tid': f.reader_tid, 'writer_tids': [th.name for _, th, _, _ in f.started], 'writer_ks': [k for k, *_ in f.started],
            'opened': opened, 'paused_actions': dict(f.paused_actions), 'unseen_waits': f.unseen_waits}
     if f.errors or f.answer is None:
@@ -869,7 +948,7 @@ def _run(ctx):
         if ctx.tier != 'thorough':
             osel = rng.sample(osel, min(len(osel), 2 if rname.startswith('getContextStates') else 1))
         for w in osel:
-            for p in filter(boundary, pts[1:]):
+            for p in pts[1:]:   # all yield points: with an acquire that gave up the "locked" accesses are not locked at all
                 cases.append((rname, [w], [p], [True]))
         # two transactions in one request (three threads)
         pairs = list(itertools.combinations_with_replacement(pts, 2))
@@ -901,6 +980,8 @@ def _run(ctx):
             case['toggle_phase'] = res['toggle_phase']
         if 'contextDeleteTx' in wn:
             case['delete_phase'] = res['delete_phase']
+        if 'descriptorDeleteRaisingTx' in wn:
+            case['raise_phase'] = res['raise_phase']
         ctx.case(case, nontrivial=in_flight, sample={**case, 'answer_version': res.get('answer_version'), 'v0': res['v0'],
                                                       'reader_events': [e[0] for e in res['r_events']][:12]} if len(pts) == 1 and pts[0] == 3 else None)
         ctx.count('reader:' + rname)
@@ -989,7 +1070,7 @@ def relevant_writers(rname, rng):
     if rname in TOGGLED:
         return [rng.choice(['metricTx', 'descriptorTx', 'contextNewTx'])]
     if rname.startswith('getMdDescription'):
-        return ['descriptorTx', 'descriptorAddTx']
+        return ['descriptorTx', 'descriptorAddTx', 'descriptorDeleteRaisingTx']
     if rname.startswith('getContextStates'):
         return ['contextNewTx', 'contextUpdateTx', 'contextDeleteTx', 'contextNestedTx']
     if rname.startswith('getMdState'):
@@ -1017,7 +1098,7 @@ def parse_force(o):
 def report(ctx, res):
     sig, detail = res['verdict']
     case = {'reader': res['reader'], 'writers': res['writers'], 'points': res['points'], 'toggle_phase': res['toggle_phase'],
-            'delete_phase': res['delete_phase'], 'opened': res['opened'], 'reader_events': [list(e) for e in res['r_events']][:40]}
+            'delete_phase': res['delete_phase'], 'raise_phase': res['raise_phase'], 'opened': res['opened'], 'reader_events': [list(e) for e in res['r_events']][:40]}
     if sig == 'harness':
         raise RuntimeError('forced schedule could not be executed: ' + detail)
     inject = [res['r_events'][p][0] + ('' if res['r_events'][p][2] else '(unlocked)') if p < len(res['r_events']) else 'end' for p in res['points']]
@@ -1044,6 +1125,8 @@ def replay(ctx, obj):
         return bool(res['verdicts']) or 'reused' in res
     while getattr(state['bench'], 'delete_phase', 0) != case.get('delete_phase', 0):
         w_context_delete(state['bench'], 7)
+    while getattr(state['bench'], 'raise_phase', 0) != case.get('raise_phase', 0):
+        w_descriptor_delete_raising(state['bench'], 7)
     while getattr(state['bench'], 'toggle_phase', 0) != case.get('toggle_phase', 0):
         w_toggle(state['bench'], 7)
     res = run_case(ctx, state, case['reader'], case['writers'], case['points'], case.get('opened'))
